@@ -99,7 +99,8 @@ def unequal_scenario(rng, ctype, F, lo_share=0.0):
     return None, None, "unequal"
 
 
-def emit_cal(s, sc, vn, name, m_error=None, pvalue=None, uid=None, tag=""):
+def emit_cal(s, sc, vn, name, m_error=None, pvalue=None, uid=None, tag="",
+             iteration_limit=None):
     """one vnacal_new_t on the shared $vc; returns lines"""
     L = {}
     s.op("%s=vnacal_new_alloc $vc %s %d %d %d" % (vn, sc.ctype, sc.r, sc.c, sc.F))
@@ -109,6 +110,8 @@ def emit_cal(s, sc, vn, name, m_error=None, pvalue=None, uid=None, tag=""):
             s.op("vnacal_new_set_m_error $%s %s" % (vn, step))
     if pvalue is not None:
         s.op("vnacal_new_set_pvalue_limit $%s %s" % (vn, hx(pvalue)))
+    if iteration_limit is not None:
+        s.op("vnacal_new_set_iteration_limit $%s %d" % (vn, iteration_limit))
     L["add"] = [sc.emit_std(s, st, int(tag) * 1000 + i, vn=vn, uid=uid)
                 for i, st in enumerate(sc.stds)]
     L["solve"] = s.op("vnacal_new_solve $%s" % vn)
@@ -222,7 +225,15 @@ def work_exact(chunk_id, payload):
         s.rvec("freq", sc.freqs)
         uid = [0]
         arg = noise_grid(s, sc, rng, nf, tr, gk, "e")
-        Lw = emit_cal(s, sc, "vw", "w", m_error=[arg], uid=uid, tag="1")
+        # exact data need no more than two rounds of weights and V matrices
+        # per linear system, however many systems the type has
+        itl = int(os.environ.get("C18_ITL", "0")) or (
+            int(rng.choice([2, 3])) if rng.random() < 0.3 else None)
+        if itl:
+            cnt["exact_with_low_iteration_limit"] = cnt.get(
+                "exact_with_low_iteration_limit", 0) + 1
+        Lw = emit_cal(s, sc, "vw", "w", m_error=[arg], uid=uid, tag="1",
+                      iteration_limit=itl)
         Lu = emit_cal(s, sc, "vu", "u", uid=uid, tag="2")
         # enabled then disabled again
         Ld = emit_cal(s, sc, "vd_", "d", m_error=[arg, "NULL 1 NULL NULL"],
